@@ -586,3 +586,125 @@ func ruleDCGCBodyTested(c *Ctx, r *Report) {
 		r.info(rule, "scan/calls", "-", desc, "the control-only translator is called from the general one only")
 	}
 }
+
+// ---------------------------------------------------------------------------
+// R-DCG-PAIR-LAST (C17; added after seed C17i): a non-terminal with arguments A1..An translates to a goal whose
+// LAST two arguments are the list pair: nt(A1, ..., An, S0, S) - also for call//N, whose goal is
+// call(G, A1, ..., An, S0, S). Wherever the translation builds a term whose arguments contain the function's
+// `rest` parameter, nothing comes after it: in an argument list written as a literal `rest` is the last element
+// (and `list` the one before it); in one assembled with append, the append that adds the pair is the last one.
+func ruleDCGPairLast(c *Ctx, r *Report) {
+	const rule = "R-DCG-PAIR-LAST"
+	desc := "the list pair is the last two arguments of every goal the DCG translation builds"
+	n := 0
+	for _, fn := range c.LibFuncs() {
+		if funcPkg(fn) != c.Engine {
+			continue
+		}
+		var list, rest ssa.Value
+		for _, p := range fn.Params {
+			if isEngNamed(p.Type(), "Term") && p.Name() == "list" {
+				list = p
+			}
+			if isEngNamed(p.Type(), "Term") && p.Name() == "rest" {
+				rest = p
+			}
+		}
+		if list == nil || rest == nil {
+			continue
+		}
+		// position of v in the array literal behind slice value sl (-1 if absent), and the literal's length
+		posIn := func(sl ssa.Value, v ssa.Value) (int64, int64) {
+			s, ok := sl.(*ssa.Slice)
+			if !ok {
+				return -1, 0
+			}
+			al, ok := s.X.(*ssa.Alloc)
+			if !ok {
+				return -1, 0
+			}
+			arr, ok := deref(al.Type()).Underlying().(*types.Array)
+			if !ok {
+				return -1, 0
+			}
+			pos := int64(-1)
+			for _, ref := range *al.Referrers() {
+				ia, ok := ref.(*ssa.IndexAddr)
+				if !ok {
+					continue
+				}
+				idx, _ := constInt(ia.Index)
+				for _, r2 := range *ia.Referrers() {
+					if st, ok := r2.(*ssa.Store); ok && st.Val == v {
+						pos = idx
+					}
+				}
+			}
+			return pos, arr.Len()
+		}
+		k := 0
+		eachInstr(fn, func(in ssa.Instruction) {
+			call, ok := in.(*ssa.Call)
+			if !ok {
+				return
+			}
+			callee := call.Call.StaticCallee()
+			if callee == nil || callee.Name() != "Apply" || recvNamed(callee) != "Atom" || len(call.Call.Args) != 2 {
+				return
+			}
+			bad := ""
+			mentions := false
+			type vl struct {
+				v    ssa.Value
+				last bool
+			}
+			seen := map[vl]bool{}
+			var check func(v ssa.Value, last bool)
+			check = func(v ssa.Value, last bool) {
+				if v == nil || seen[vl{v, last}] {
+					return
+				}
+				seen[vl{v, last}] = true
+				switch x := v.(type) {
+				case *ssa.Phi:
+					for _, e := range x.Edges {
+						check(e, last)
+					}
+				case *ssa.Slice:
+					pr, ln := posIn(x, rest)
+					pl, _ := posIn(x, list)
+					if pr < 0 {
+						return
+					}
+					mentions = true
+					switch {
+					case !last:
+						bad = "further arguments are appended after the list pair"
+					case pr != ln-1 || pl != ln-2:
+						bad = fmt.Sprintf("the list pair stands at positions %d and %d of %d arguments", pl+1, pr+1, ln)
+					}
+				case *ssa.Call:
+					if b, ok := x.Call.Value.(*ssa.Builtin); ok && b.Name() == "append" && len(x.Call.Args) == 2 {
+						check(x.Call.Args[1], last) // what this append adds
+						check(x.Call.Args[0], false)
+					}
+				}
+			}
+			check(call.Call.Args[1], true)
+			if !mentions {
+				return
+			}
+			n++
+			k++
+			key := fmt.Sprintf("%s/Apply#%d", fname(fn), k)
+			if bad == "" {
+				r.ok(rule, key, c.at(in), desc, "list and rest are the last two arguments", true)
+			} else {
+				r.bad(rule, key, c.at(in), desc, bad+": the goal threads the wrong arguments as the list pair (call(G, S0, S, A) where call(G, A, S0, S) is meant), so the called predicate gets its arguments permuted")
+			}
+		})
+	}
+	if n == 0 {
+		r.undecided(rule, "scan/goals-with-pair", "-", desc, "no goal built from the list pair found")
+	}
+}
